@@ -80,6 +80,20 @@ def evaluate(case, out):
             ub0 = a.assorter.upper_bound
             want0 = ub0 if con.audit_type == "POLLING" else 2 / (2 - a.margin / ub0)
             out.expect(abs(a.test.u - want0) <= 1e-12 * want0, "u-not-installed-when-margins-are-set", lambda: (cid, key, con.audit_type, a.test.u, want0))
+    # the margins may afterwards be re-based on the reported tally (find_margin_from_tally): whatever margin is in force when
+    # the data are made governs both the data and the bound returned with them
+    if len(cvrs) % 4 == 3:
+        from shangrla.core.Audit import Contest
+        for cid, con in contests.items():
+            if case["contests"][cid]["kind"] == "plurality" and con.cards:
+                try:
+                    Contest.tally({cid: con}, cvrs)
+                    for a in con.assertions.values():
+                        a.find_margin_from_tally()
+                    out.cls("margins-re-based-on-the-tally")
+                except Exception as e:  # noqa
+                    out.lib_exception("find_margin_from_tally", e)
+                    return
     # contests that cannot be sampled (no card lists them) are dropped, as an auditor would
     for cid in [c for c in contests if not any(cv.has_contest(c) for cv in cvrs)]:
         del contests[cid]
